@@ -96,8 +96,14 @@ func explore(args []string) int {
 	for _, l := range out.Lines {
 		fmt.Println(l)
 	}
-	fmt.Printf("property=%s tier=%s states=%d transitions=%d exhaustive=%v violations=%d known=%d wall=%.1fs\n",
-		*prop, *tier, out.Evidence.Coverage["states"], out.Evidence.Coverage["transitions"], out.Evidence.Coverage["exhaustive"], out.NewViolations, out.KnownHits, out.Evidence.WallS)
+	cov := out.Evidence.Coverage
+	if _, ok := cov["states"]; ok {
+		fmt.Printf("property=%s tier=%s states=%v transitions=%v exhaustive=%v violations=%d known=%d wall=%.1fs\n",
+			*prop, *tier, cov["states"], cov["transitions"], cov["exhaustive"], out.NewViolations, out.KnownHits, out.Evidence.WallS)
+	} else {
+		fmt.Printf("property=%s tier=%s evaluations=%v distinct_nontrivial=%v exhaustive=%v violations=%d known=%d wall=%.1fs\n",
+			*prop, *tier, cov["evaluations"], cov["distinct_nontrivial"], cov["exhaustive"], out.NewViolations, out.KnownHits, out.Evidence.WallS)
+	}
 	if out.NewViolations > 0 {
 		return 1
 	}
